@@ -100,7 +100,8 @@ def main():
         if rs:
             out.append("| %d | %d | %d | %d |" % (rn, len(rs), sum(1 for r in rs if r[7]), sum(1 for r in rs if r[6])))
     out.append("")
-    out.append("(Each round was run against the checks as strengthened after the previous one; every round asked for a mechanism "
+    out.append("(Round 10 has 19 changes: the C03 agent found none that was not a variant of the nine before it and seeded nothing.  "
+               "Each round was run against the checks as strengthened after the previous one; every round asked for a mechanism "
                "different from those already tried, so later rounds probe further corners, not the same ones again.)\n")
     out.append("### 6.2 Reverts of the fix commits\n")
     out.append("| Seed | Property | Change | Quick check |")
